@@ -55,7 +55,7 @@ func genC07(t *rapid.T) C07Case {
 	m := rapid.IntRange(1, h.Scale(20, 30)).Draw(t, "nReq")
 	long := rapid.IntRange(0, 19).Draw(t, "long") == 0
 	if long {
-		m = h.Scale(300, 3000) // a long life of a few accounts: request numbers, totals and answer counts far beyond the short sequences
+		m = h.Scale(300, 1000) // a long life of a few accounts: request numbers, totals and answer counts far beyond the short sequences
 	}
 	for i := 0; i < m; i++ {
 		r := CCR{Acct: rapid.SampledFrom([]int{0, 0, 0, 1, 1, 2, 3, -1, -2, -4, -5}).Draw(t, "acct")}
